@@ -143,7 +143,7 @@ MISUSE = ['cross_st', 'cross_add', 'cross_mul_rvar', 'cross_add_rvar', 'foreign_
           'read_unsolved', 'read_failed', 'ambiguity_after_constraints', 'foreign_adapt', 'foreign_set_minmax',
           'foreign_amb_forall_explin', 'foreign_amb_forall_exppw', 'cross_concat', 'concat_dvar_rvar', 'foreign_adapt_ldr',
           'cross_maxof', 'cross_matmul_rvar', 'cross_st_cone', 'cross_st_piecewise', 'foreign_second_in_list', 'call_unsolved',
-          'cross_kldiv', 'cross_convex']
+          'cross_kldiv', 'cross_convex', 'foreign_scen_adapt']
 
 
 def gen_case(seed, cfg):
@@ -221,7 +221,7 @@ def gen_case(seed, cfg):
         # a step that opens a narrow window (a fresh decision rule not yet used, a fresh ambiguity set, a dro decision before
         # any constraint) is followed at once, every other time, by the misuse that needs that window
         window = {'ldr': ['foreign_adapt_ldr'], 'amb': ['foreign_supp', 'foreign_expt', 'foreign_prob', 'foreign_second_in_list'],
-                  'dvar': ['foreign_adapt'], 'forall': ['foreign_set_forall', 'foreign_amb_forall'],
+                  'dvar': ['foreign_adapt', 'foreign_scen_adapt'], 'forall': ['foreign_set_forall', 'foreign_amb_forall'],
                   'st': ['ambiguity_after_constraints', 'foreign_amb_objective']}.get(op['op'])
         if window and n_mis < max_mis and rng.random() < 0.5:
             mo = gen_misuse(rng, models, state, only=window, first=i)
@@ -260,7 +260,7 @@ def gen_misuse(rng, models, state, only=None, first=None):
         # kinds with narrow preconditions first, rarest first (a random cut keeps the head of the list from monopolising)
         rare = ['foreign_amb_forall', 'foreign_amb_forall_exppw', 'foreign_amb_forall_explin', 'foreign_prob', 'foreign_amb_objective',
                 'foreign_set_forall', 'foreign_adapt_ldr', 'foreign_expt', 'foreign_second_in_list', 'foreign_set_minmax',
-                'cross_kldiv', 'cross_convex', 'ambiguity_after_constraints', 'foreign_adapt', 'foreign_supp', 'cross_mul_rvar', 'cross_add_rvar',
+                'foreign_scen_adapt', 'cross_kldiv', 'cross_convex', 'ambiguity_after_constraints', 'foreign_adapt', 'foreign_supp', 'cross_mul_rvar', 'cross_add_rvar',
                 'concat_dvar_rvar', 'cross_matmul_rvar', 'cross_maxof', 'second_objective', 'cross_st_piecewise']
         cut = rng.randrange(len(rare))
         rare = rare[cut:] + rare[:cut] if rng.random() < 0.5 else rare
@@ -451,6 +451,12 @@ def gen_misuse(rng, models, state, only=None, first=None):
                 zb = pb + rng.choice(b_rv)
                 to = rng.choice([['v', zb], ['i', ['v', zb], [0, 1]]])
                 return [dict(mk, op='adapt', tgt=tgt, to=to)]
+            if kind == 'foreign_scen_adapt' and A['kind'] == 'dro' and B['kind'] == 'dro' and b_amb and a_dv and not sa['st'] \
+                    and 't' in a_dv and not sa.get('t_adapted'):
+                # event-wise adaptation to scenarios taken from the OTHER model's ambiguity set
+                lab = B['labels'][0]
+                sc = lab if B['labels'] == list(range(len(B['labels']))) else {'loc': lab}
+                return [dict(mk, op='adapt', tgt=['v', pa + 't'], to={'fset': [pb + b_amb[0], sc]})]
             if kind == 'foreign_adapt' and a_dv and b_rv and A['kind'] == 'dro' and not sa['st'] and 'y' in a_dv:
                 return [dict(mk, op='adapt', tgt=['v', pa + 'y'], to=['v', pb + rng.choice(b_rv)])]
     return None
